@@ -146,10 +146,19 @@ func (h *timerHarness) failLocked(f string, a ...interface{}) {
 func (h *timerHarness) make(op TOp, inFiringOf *incarnation) {
 	h.opMu.Lock()
 	defer h.opMu.Unlock()
+	h.makeL(op, inFiringOf)
+}
+
+// makeL: make with opMu already held by the caller.
+func (h *timerHarness) makeL(op TOp, inFiringOf *incarnation) {
 	h.mu.Lock()
 	h.incs = append(h.incs, nil) // reserve the incarnation number
 	n := len(h.incs)
 	prev := h.live[op.Id]
+	// (sampled before the request: a refusal is wrong only if the
+	// previous timer had fired by then - it may also fire between the
+	// refusal and our looking at it)
+	prevFired := prev != nil && prev.fired > 0
 	h.mu.Unlock()
 	t0 := time.Now()
 	h.mu.Lock()
@@ -163,7 +172,7 @@ func (h *timerHarness) make(op TOp, inFiringOf *incarnation) {
 		// id is still pending
 		if prev == nil || prev.cancelled || prev.dropped {
 			h.fail("make %q was refused (%v) although no timer with that id is pending", op.Id, err)
-		} else if prev.fired > 0 {
+		} else if prevFired {
 			if inFiringOf == prev {
 				h.fail("make %q from inside the handler of its own firing was refused (%v): the id is not free although the timer has fired", op.Id, err)
 			} else if h.live[op.Id] == prev {
@@ -186,6 +195,11 @@ func (h *timerHarness) make(op TOp, inFiringOf *incarnation) {
 func (h *timerHarness) cancel(id string, inFiringOf *incarnation) {
 	h.opMu.Lock()
 	defer h.opMu.Unlock()
+	h.cancelL(id, inFiringOf)
+}
+
+// cancelL: cancel with opMu already held by the caller.
+func (h *timerHarness) cancelL(id string, inFiringOf *incarnation) {
 	h.mu.Lock()
 	target := h.live[id]
 	h.mu.Unlock()
@@ -443,6 +457,10 @@ func checkTimers(c TimerCase) (v ev.Verdict) {
 			// queued on the timers' lock: the timer goroutine's own
 			// clean-up and the requester compete when the lock is freed.
 			h.make(TOp{Kind: "make", Id: op.Id, DelayMs: 5000, Ctx: op.Ctx}, nil)
+			// from here on no other request of the harness (a handler's)
+			// is in flight: the contexts are swapped under opMu, so that
+			// no make can be under way with the context that is ending
+			h.opMu.Lock()
 			h.mu.Lock()
 			inc := h.live[op.Id]
 			h.mu.Unlock()
@@ -451,8 +469,8 @@ func checkTimers(c TimerCase) (v ev.Verdict) {
 				done := make(chan struct{})
 				go func() {
 					defer close(done)
-					h.cancel(op.Id, nil)
-					h.make(TOp{Kind: "make", Id: op.Id, DelayMs: op.WaitMs}, nil)
+					h.cancelL(op.Id, nil)
+					h.makeL(TOp{Kind: "make", Id: op.Id, DelayMs: op.WaitMs}, nil)
 				}()
 				time.Sleep(time.Millisecond)
 				h.mu.Lock()
@@ -462,13 +480,12 @@ func checkTimers(c TimerCase) (v ev.Verdict) {
 				time.Sleep(time.Millisecond)
 				h.ts.Unlock()
 				<-done
-				h.opMu.Lock()
 				h.awaitGone(affected)
-				h.opMu.Unlock()
 				h.mu.Lock()
 				h.nearDue++
 				h.mu.Unlock()
 			}
+			h.opMu.Unlock()
 		case "contend":
 			// The timer becomes due while the timers' (exported) lock is
 			// held by someone else; meanwhile a requester cancels it and
@@ -502,7 +519,9 @@ func checkTimers(c TimerCase) (v ev.Verdict) {
 			h.mu.Lock()
 			inc := h.live[op.Id]
 			h.mu.Unlock()
-			if inc != nil {
+			if inc != nil && inc.delay == op.DelayMs && time.Until(inc.due) < 100*time.Millisecond {
+				// (only if this make was accepted: otherwise the id's
+				// pending timer may be a 5 s one)
 				for time.Now().Before(inc.due) {
 				}
 				h.cancel(op.Id, nil)
@@ -514,7 +533,7 @@ func checkTimers(c TimerCase) (v ev.Verdict) {
 		h.checkPending("after " + ev.JS(op))
 	}
 	// quiescence: every short timer that was not cancelled fires
-	deadline := time.Now().Add(2500 * time.Millisecond)
+	deadline := time.Now().Add(6 * time.Second)
 	for !h.failed() {
 		h.mu.Lock()
 		waiting := 0
@@ -567,10 +586,31 @@ func checkTimers(c TimerCase) (v ev.Verdict) {
 		h.mu.Unlock()
 		h.checkPending("at quiescence")
 		for _, inc := range long {
+			far := time.Until(inc.due) > 500*time.Millisecond
 			h.cancel(inc.id, nil)
 			h.mu.Lock()
-			if !inc.cancelled && h.bad == "" {
-				h.fail("timer %q (incarnation %d, %d ms) is pending but could not be cancelled", inc.id, inc.n, inc.delay)
+			missed := !inc.cancelled && h.bad == ""
+			h.mu.Unlock()
+			if !missed {
+				continue
+			}
+			if far {
+				h.failLocked("timer %q (incarnation %d, %d ms) is pending but could not be cancelled", inc.id, inc.n, inc.delay)
+				continue
+			}
+			// the case took so long that this timer has become due: then
+			// it must fire
+			for deadline := inc.due.Add(3 * time.Second); time.Now().Before(deadline); time.Sleep(time.Millisecond) {
+				h.mu.Lock()
+				fired := inc.fired > 0
+				h.mu.Unlock()
+				if fired {
+					break
+				}
+			}
+			h.mu.Lock()
+			if inc.fired == 0 {
+				h.fail("timer %q (incarnation %d, %d ms) was due, could not be cancelled and did not fire", inc.id, inc.n, inc.delay)
 			}
 			h.mu.Unlock()
 		}
